@@ -522,6 +522,47 @@ unsigned long getauxval(unsigned long type) {
 #include <sys/syscall.h>
 /* (declared above) */
 
+static int memfd_with(const char *data, size_t len) {
+    int fd = (int)syscall(SYS_memfd_create, "gramsim-file", 0);
+    if (fd < 0) return -1;
+    size_t off = 0;
+    while (off < len) {
+        ssize_t w = write(fd, data + off, len - off);
+        if (w <= 0) { close(fd); return -1; }
+        off += (size_t)w;
+    }
+    lseek(fd, 0, SEEK_SET);
+    return fd;
+}
+
+/* Other files through which the machine, not the input, speaks to the process: the kernel's
+   random devices (std's fallback when getrandom is unavailable), uptime and load. */
+static int simulated_special_file(const char *path) {
+    init_once();
+    if (key_len < 16) return -1;
+    if (!strcmp(path, "/dev/urandom") || !strcmp(path, "/dev/random")) {
+        static char stream[65536];
+        uint64_t st = tail_state ^ 0x75726e64ULL;
+        for (size_t i = 0; i < sizeof stream; i++) stream[i] = (char)(splitmix(&st) & 0xff);
+        memcpy(stream, key_bytes, 16);
+        log_mark("P\n");
+        return memfd_with(stream, sizeof stream);
+    }
+    if (!strcmp(path, "/proc/uptime")) {
+        char buf[96];
+        int n = snprintf(buf, sizeof buf, "%llu.%02u %llu.00\n", (unsigned long long)(clock_base % 10000000ULL), (unsigned)(clock_step % 100), (unsigned long long)(clock_base % 777777ULL));
+        log_mark("T\n");
+        return memfd_with(buf, (size_t)n);
+    }
+    if (!strcmp(path, "/proc/loadavg")) {
+        char buf[96];
+        int n = snprintf(buf, sizeof buf, "%u.%02u 0.50 0.25 1/%ld %ld\n", (unsigned)(key_bytes[0] % 16), (unsigned)(key_bytes[1] % 100), 100 + (long)(key_bytes[2]), fake_pid ? fake_pid : 4242L);
+        log_mark("P\n");
+        return memfd_with(buf, (size_t)n);
+    }
+    return -1;
+}
+
 static int patched_proc_file(const char *path) {
     init_once();
     if (fake_rss_kib <= 0) return -1;
@@ -576,6 +617,10 @@ int open64(const char *path, int flags, ...) {
         int fd = patched_proc_file(path);
         if (fd >= 0) return fd;
     }
+    if (path && (!strncmp(path, "/dev/", 5) || !strncmp(path, "/proc/", 6))) {
+        int fd = simulated_special_file(path);
+        if (fd >= 0) return fd;
+    }
     return (int)syscall(SYS_openat, AT_FDCWD, path, flags | O_LARGEFILE, mode);
 }
 
@@ -584,6 +629,10 @@ int open(const char *path, int flags, ...) {
     if (flags & (O_CREAT | O_TMPFILE)) { va_list ap; va_start(ap, flags); mode = va_arg(ap, mode_t); va_end(ap); }
     if (path && !strncmp(path, "/proc/self/stat", 15)) {
         int fd = patched_proc_file(path);
+        if (fd >= 0) return fd;
+    }
+    if (path && (!strncmp(path, "/dev/", 5) || !strncmp(path, "/proc/", 6))) {
+        int fd = simulated_special_file(path);
         if (fd >= 0) return fd;
     }
     return (int)syscall(SYS_openat, AT_FDCWD, path, flags, mode);
